@@ -1102,6 +1102,24 @@ theorem connRun_after_connError (c : Conn) (op : ConnOp) (ops : List ConnOp) (k 
   connRun_dead _ ops (connStep_connError c op k h)
 
 
+/-! ### peer SETTINGS -/
+
+theorem applyPeerSetting_local (s : SettingsState) (cap id v : Nat) : (applyPeerSetting s cap id v).1.localS = s.localS := by
+  unfold applyPeerSetting
+  repeat' split
+  all_goals rfl
+
+theorem handleSettings_local (s : SettingsState) (cap : Nat) (es : List (Nat × Nat)) :
+    (handleSettings s cap es).1.localS = s.localS := by
+  induction es generalizing s with
+  | nil => rfl
+  | cons e r ih =>
+    obtain ⟨id, v⟩ := e
+    simp only [handleSettings]
+    split
+    · exact applyPeerSetting_local s cap id v
+    · rw [ih, applyPeerSetting_local]
+
 /-! ### proofs of the property theorems (statements: `Props.lean`) -/
 
 theorem c15_decoder_total_and_exact (input : Bytes) (mfs : Nat) :
